@@ -846,8 +846,10 @@ func TestVerifC09Verify(t *testing.T) {
 			return k
 		}
 		// ---- set-like fields, per (field, shard) unit: must equal S0's or S1's unit
+		gotByField := map[string]map[uint64]map[uint64]bool{}
 		for _, f := range []string{"s", "m", "r"} {
 			got := map[uint64]map[uint64]bool{} // row -> cols
+			gotByField[f] = got
 			bad := false
 			for row := uint64(0); row < 4; row++ {
 				res, err := query("i", fmt.Sprintf("Row(%s=%d)", f, row))
@@ -1064,7 +1066,85 @@ func TestVerifC09Verify(t *testing.T) {
 				}
 			}
 		}
-		m.Close()
+		// ---- second generation: the recovered server keeps working. On a state that passed, shrink the
+		// set fields (ClearRow), snapshot, write a few more bits, close CLEANLY and reopen: what was
+		// acknowledged after the crash must be there too (whatever the crash left lying around).
+		if len(v.Failures) == 0 && gotByField["s"] != nil && gotByField["r"] != nil && gotByField["m"] != nil {
+			exp := map[string]map[uint64]map[uint64]bool{}
+			okGen := true
+			run := func(pq string) {
+				if _, err := query("i", pq); err != nil && okGen {
+					okGen = false
+					fail("gen2-write-error:snapshot-temp-leftover="+fmt.Sprint(v.Snapshotting), fmt.Sprintf("after recovery %s: %v", pq, err))
+				}
+			}
+			for _, f := range []string{"s", "r", "m"} {
+				exp[f] = map[uint64]map[uint64]bool{}
+				// clear every recovered bit in one acknowledged batch per shard (the fragment shrinks to nothing),
+				// then snapshot: the first snapshot after the crash is now much smaller than anything left behind
+				for sh := uint64(0); sh < 2; sh++ {
+					req := &pilosa.ImportRequest{Index: "i", Field: f, Shard: sh}
+					for row := uint64(0); row < 4; row++ {
+						for c := range gotByField[f][row] {
+							if c/c09SW == sh {
+								req.RowIDs = append(req.RowIDs, row)
+								req.ColumnIDs = append(req.ColumnIDs, c)
+							}
+						}
+					}
+					if len(req.RowIDs) == 0 {
+						continue
+					}
+					if err := m.API.Import(ctx, req, pilosa.OptImportOptionsClear(true)); err != nil && okGen {
+						okGen = false
+						fail("gen2-write-error:snapshot-temp-leftover="+fmt.Sprint(v.Snapshotting), fmt.Sprintf("after recovery Import(clear, field %s shard %d, %d bits): %v", f, sh, len(req.RowIDs), err))
+					}
+				}
+				for row := uint64(0); row < 4; row++ {
+					exp[f][row] = map[uint64]bool{}
+				}
+				if fld := m.Server.Holder().Field("i", f); fld != nil {
+					pilosa.VerifSnapshotAll(fld)
+				}
+				for k := uint64(0); k < 6; k++ {
+					row, col := k%3, (k%2)*c09SW+1000+uint64(n%50)+k
+					run(fmt.Sprintf("Set(%d, %s=%d)", col, f, row))
+					exp[f][row][col] = true
+				}
+			}
+			m.Close()
+			v.Checks++
+			m2, err := c09StartServer(dir)
+			if err != nil {
+				fail("gen2-restart-fails:snapshot-temp-leftover="+fmt.Sprint(v.Snapshotting), fmt.Sprintf("second (clean) restart fails: %v", err))
+			} else {
+				for _, f := range []string{"s", "r", "m"} {
+					for row := uint64(0); row < 4 && okGen; row++ {
+						resp, err := m2.API.Query(ctx, &pilosa.QueryRequest{Index: "i", Query: fmt.Sprintf("Row(%s=%d)", f, row)})
+						v.Checks++
+						if err != nil {
+							fail("gen2-read-error:field="+f, err.Error())
+							okGen = false
+							break
+						}
+						got := resp.Results[0].(*pilosa.Row).Columns()
+						var want []uint64
+						for c := range exp[f][row] {
+							want = append(want, c)
+						}
+						want = vk.SortedU64(want)
+						if !vk.EqualU64(got, want) {
+							fail(fmt.Sprintf("gen2-lost-after-clean-restart:field=%s:snapshot-temp-leftover=%v", f, v.Snapshotting),
+								fmt.Sprintf("after crash recovery, an acknowledged clear of every bit, a snapshot, 6 acknowledged Sets and a clean restart: Row(%s=%d) = %s, want %s", f, row, vk.Brief(got), vk.Brief(want)))
+							okGen = false
+						}
+					}
+				}
+				m2.Close()
+			}
+		} else {
+			m.Close()
+		}
 		b, _ := json.Marshal(v)
 		vf.Write(append(b, '\n'))
 		os.RemoveAll(dir)
